@@ -291,9 +291,27 @@ DenoteElem(lx, g) ==
 (*        scopes, cd]                                                      *)
 (*     generated (tomof returned), accepted (the compiler accepted), lit,  *)
 (*     declared (instance events: class-declared properties not given)     *)
+(*     sess            "" | "prime" | "declare" | "use": step of a         *)
+(*                     compiler SESSION (MofTextDecl.tla Part B: one       *)
+(*                     MOFCompiler,                                        *)
+(*                     one namespace, a history of declarations and        *)
+(*                     classes); every element carries qn = lower-case     *)
+(*                     qualifier name for qualifier values / declarations  *)
+(* op = "prime": the harness put a declaration into the repository         *)
+(*     directly (orig = its one element); state update only                *)
+(*                                                                         *)
+(* State of the requirement machine: the qualifier declarations of the     *)
+(* session - cur: the one that is in the repository for each name now      *)
+(* ("the needed qualifier declarations" at this time), old: superseded     *)
+(* ones (diagnosis only).                                                  *)
 (***************************************************************************)
-InitState == 0
-Apply(s, e) == s
+InitState == [cur |-> {}, old |-> {}]
+Apply(s, e) ==
+  IF e.sess \in {"prime", "declare"}
+  THEN LET d == e.orig[1]
+       IN [cur |-> {x \in s.cur : x.qn # d.qn} \cup {d},
+           old |-> s.old \cup {x \in s.cur : x.qn = d.qn /\ x # d}]
+  ELSE s
 
 DfltFlavor == [ovr |-> "T", tosub |-> "T", transl |-> "F", toinst |-> "F"]
 NormF(f, d) == IF f = "N" THEN d ELSE f
@@ -442,9 +460,41 @@ FoldFails(e) ==
                    /\ Fold(e.s, e.lp, FoldParams(e, TRUE)).out # NoComma(e.out)
                 THEN {"diag.mofstrIsTheSplitAnywhereVariant"} ELSE {})
 
+(* Compiler session (MofTextDecl.tla Part B).  The clauses are the ones    *)
+(* above: the class compiled in step `use` equals the original class,      *)
+(* which specifies its qualifiers as the CURRENT declarations say (checked *)
+(* here against the machine's state, so that a driver that builds another  *)
+(* class is caught: UnknownEvent).  Diagnosis only (added when a clause    *)
+(* fails): the compiled qualifier has type and flavors of a SUPERSEDED     *)
+(* declaration of the session.                                             *)
+QualsOf(es) == {es[i] : i \in {j \in DOMAIN es : es[j].et = "qual"}}
+UsesCurrent(s, e) ==
+  \A q \in QualsOf(e.orig) :
+    \E d \in s.cur : /\ d.qn = q.qn /\ d.type = q.type
+                     /\ d.ovr = q.dovr /\ d.tosub = q.dtosub
+                     /\ d.transl = q.dtransl /\ d.toinst = q.dtoinst
+StaleDiag(s, e) ==
+  {"diag.StaleQualifierDeclaration" :
+     p \in {q \in Paths(e.orig) \cap Paths(e.comp) :
+             LET o == AtPath(e.orig, q)
+                 c == AtPath(e.comp, q)
+             IN /\ o.et = "qual"
+                /\ ~(o.type = c.type /\ QualFlavorsOk(o, c))
+                /\ \E d \in s.old :
+                      /\ d.qn = o.qn /\ d.type = c.type
+                      /\ NormF(d.ovr, "T") = NormF(c.ovr, "T")
+                      /\ NormF(d.tosub, "T") = NormF(c.tosub, "T")}}
+SessFails(s, e) ==
+  IF e.sess = "use" /\ ~UsesCurrent(s, e) THEN {"UnknownEvent"}
+  ELSE LET f == ObjFails(e)
+       IN IF f = {} \/ e.sess # "use" \/ ~e.accepted THEN f
+          ELSE f \cup StaleDiag(s, e)
+
 Fails(s, e) ==
   IF e.op = "fold" THEN FoldFails(e)
-  ELSE IF e.op = "obj" THEN ObjFails(e)
+  ELSE IF e.op = "obj" THEN (IF e.sess = "" THEN ObjFails(e)
+                             ELSE SessFails(s, e))
+  ELSE IF e.op = "prime" /\ e.sess = "prime" THEN {}
   ELSE {"UnknownEvent"}
 
 (* binding of the transcription (impl drift, never a violation) *)
